@@ -48,6 +48,7 @@ type blob struct {
 	t    types.Type // static type of the source value
 	raw  value      // deep copy of the original interpreter value
 	text string     // non-empty if concrete text is known
+	size value      // length attached by the harness (verifrt.SetJSONSize), if any
 }
 
 // nativeVal wraps a native Go value of an opaque type (time.Time ...). Immutable.
@@ -518,6 +519,15 @@ func (i *interpreter) symLen(x value) value {
 	case *blob:
 		if s.text != "" {
 			return len(s.text)
+		}
+		if s.size != nil {
+			switch sz := s.size.(type) {
+			case int64:
+				return int(sz)
+			case *Term:
+				return sz
+			}
+			return s.size
 		}
 		v, _ := i.path.newVar("len_blob", 64, "int")
 		i.path.draws = i.path.draws[:len(i.path.draws)-1]
